@@ -1537,3 +1537,52 @@ Proof.
   - rewrite L1. exact P10.
   - exact I.
 Qed.
+
+(* ---- one contract-abiding call ---- *)
+Theorem contract_step a n o ot a' n' :
+  Good a n -> app_next a n o ot a' -> peer_ok o -> idx_margin n o ->
+  exec n o = Ok (n', ot) -> Good a' n'.
+Proof.
+  intros G Hn Hp Hm E. destruct Hn.
+  - eapply good_idle; eassumption.
+  - cbn [exec] in E. rewrite H0 in E. cbn [bind fst snd] in E. injection E as En Eo. subst n1.
+    eapply good_ready; [exact G|exact H|exact Hm|exact H0|]. symmetry. exact Eo.
+  - cbn [exec] in E. inversion E; subst n' ot. exact (good_meta a n m G H).
+  - cbn [exec] in E. inversion E; subst n' ot. exact (good_snap a n rd m G H H0).
+  - cbn [exec] in E. inversion E; subst n' ot. exact (good_ents a n rd m G H H0).
+  - cbn [exec] in E. inversion E; subst n' ot. exact (good_compact a n ci m G H H0 H1 H2).
+  - (* advance = advance_append, then apply up to the cursor held before *)
+    cbn [exec] in E. inv_bind E. destruct x as [n2 lr2]. cbn [fst snd] in E. inversion E; subst n' ot. clear E.
+    unfold rn_advance in Hx. inv_bind Hx. destruct x as [n1 lr1]. cbn [fst snd] in Hx.
+    inv_bind Hx. inversion Hx; subst x lr2. clear Hx.
+    assert (Hm1 : idx_margin n (OAdvanceAppend rd)) by exact Hm.
+    pose proof (good_advance_append a n rd n1 lr1 G H Hm1 Hx0) as G1.
+    set (a1 := with_obs a (None, lr_committed_entries lr1) (a_store a) Idle (a_applied a)) in *.
+    assert (Hcur : rn_commit_since_index n <= a_cursor a1).
+    { rewrite (Good_cursor a1 n1 G1).
+      destruct (rn_advance_append_inv _ _ _ _ Hx0) as (m1 & m2 & m3 & lr3 & H1 & H2 & H3 & _ & _ & _ & _ & Hn' & _).
+      destruct (commit_since_monotone_light _ _ _ H3) as (M & _).
+      rewrite (on_persist_ready_csi _ _ _ H2), (commit_ready_csi _ _ _ H1) in M. subst n1. exact M. }
+    assert (Hlast : nlast n1 = nlast n).
+    { assert (Ha : app_ok a (OAdvanceAppend rd)) by exact H.
+      destruct (side_ok a n _ G Ha I Hm1 ltac:(intros m C; discriminate)) as [[W _] _].
+      destruct (rn_advance_append_pres false _ _ _ _ Hx0 W (Good_NLI a n G)) as (A1 & B1 & _).
+      unfold nlast, nlog in *. rewrite (abs_last false _ A1), B1. symmetry. apply (abs_last false).
+      exact (Good_NLI a n G). }
+    assert (Hm2 : idx_margin n1 (OAdvanceApplyTo (rn_commit_since_index n))).
+    { unfold idx_margin in *. rewrite Hlast. exact Hm. }
+    pose proof (good_apply_to a1 n1 _ n2 G1 eq_refl Hcur Hm2 Hx1) as G2.
+    rewrite <- (Good_cursor a n G) in G2. exact G2.
+  - cbn [exec] in E. inv_bind E. destruct x as [n1 lr1]. cbn [fst snd] in E. inversion E; subst.
+    eapply good_advance_append; eassumption.
+  - cbn [exec] in E. unfold quiet1 in E. inv_bind E. inversion E; subst.
+    eapply good_advance_async; eassumption.
+  - cbn [exec] in E. unfold quiet1 in E. inv_bind E. inversion E; subst.
+    eapply good_persist; eassumption.
+  - cbn [exec] in E. unfold quiet1 in E. inv_bind E. inversion E; subst.
+    rewrite with_obs_quiet. unfold rn_advance_apply in Hx.
+    pose proof (good_apply_to a n (rn_commit_since_index n) n' G H) as G2.
+    rewrite (Good_cursor a n G). apply G2; [rewrite (Good_cursor a n G); lia|exact Hm|exact Hx].
+  - cbn [exec] in E. unfold quiet1 in E. inv_bind E. inversion E; subst.
+    rewrite with_obs_quiet. eapply good_apply_to; eassumption.
+Qed.
